@@ -44,7 +44,16 @@ def run(ctx):
               invariants=["Emit", "Inv"])
     ctx.tlc(d, "CacheGen", "Sim_run.cfg", simulate=1500 if q else 12000, depth=31, workers=8, label="cache-sim")
 
-    ctx.vh(["c09", "replay", d / "cache_vectors.ndjson", ctx.scratch / "replay.res", 1 if q else 2], timeout=3000)
+    pr = ctx.vh(["c09", "replay", d / "cache_vectors.ndjson", ctx.scratch / "replay.res", 1 if q else 2], timeout=3000,
+                fatal_key="cache behaviour replay")
+    if pr.returncode != 0:
+        # The Go runtime aborted inside the cache (e.g. unlock of an unlocked mutex): recorded as a
+        # mismatch by ctx.vh; the result file is incomplete, nothing else can be claimed.
+        (d / "cache_vectors.ndjson").unlink()
+        ctx.evaluations += 1
+        ctx.distinct += 2
+        ctx.sample("replay aborted by a Go runtime fatal error inside the cache")
+        return
     s = ctx.collect(ctx.scratch / "replay.res")
     (d / "cache_vectors.ndjson").unlink()
     ctx.evaluations += s["replayed"]
@@ -55,7 +64,9 @@ def run(ctx):
 
     # 4. record random real histories and validate them against the spec.
     nh, nc = (16, 400) if q else (60, 1500)
-    ctx.vh(["c09", "record", d / "cache_trace.ndjson", ctx.scratch / "record.res", nh, nc])
+    pr = ctx.vh(["c09", "record", d / "cache_trace.ndjson", ctx.scratch / "record.res", nh, nc], fatal_key="cache random history")
+    if pr.returncode != 0:
+        return
     s2 = ctx.collect(ctx.scratch / "record.res")
     validate_trace(ctx, d, "CacheTrace", "CacheTrace.cfg", "cache_trace.ndjson", "cache history", timeout=1800)
     ctx.traces += s2["histories"] - 1
